@@ -177,6 +177,12 @@ func run(r *core.Run) {
 	if thorough {
 		run1("NUM-wide", auxData{}, "")
 	}
+	// (d'') callbacks that write into the container they were handed with: every function x arity x ordered pair of
+	// positions (container, callback)
+	ck, _ := cbCallbacks()
+	r.Bound("CB_containers", len(cbContainers))
+	r.Bound("CB_callbacks", ck)
+	run1("CB", auxData{}, "")
 	// (d) level 1 and level 2 of the value closure
 	var v2, v2kinds []string
 	if len(v1) > 0 {
